@@ -25,6 +25,11 @@ os.environ.setdefault("MPLBACKEND", "Agg")
 os.environ[GUARD] = "1"
 
 
+import numpy as _np  # noqa: E402
+
+START_ERR = _np.geterr()   # numpy's error state before any library code ran in this process
+
+
 def seed() -> int:
     try:
         return int(os.environ.get("VERIF_SEED", "0"))
